@@ -1,4 +1,8 @@
 """Fail-closed source translators: each module t_*.py exposes
    OUTPUTS = [generated file names]   and   translate(repo: Path) -> {file name: Coq text}.
 A translator raises on any source shape it does not understand."""
-ALL = ["t_merge"]
+from pathlib import Path
+
+
+def all_names():
+    return sorted(p.stem for p in Path(__file__).parent.glob("t_*.py"))
